@@ -163,6 +163,9 @@ def exact(run, fx):
     fm = D.field_mutations(fx, F + "Mm")
     for fn, fld, exp in (("ctr_stat_only", "hits", False), ("ctr_stat_only", "misses", False), ("ctr_bad_logic", "hits", True), ("ctr_bad_passed", "misses", True)):
         run.selftest("counter-only-reads/%s.%s" % (fn, fld), bool(D.logic_reads_of_field(fx.bodies[F + fn], F + "Ctr", fld)), exp)
+    for fn, exp in (("cast_bad_len", True), ("cast_ok_masked", False), ("cast_ok_mod", False), ("cast_ok_guarded", False)):
+        cs = D.narrowing_casts(fx, fx.bodies[F + fn])
+        run.selftest("narrowing-cast/" + fn, bool(cs) and any(not c[3] for c in cs), exp)
     run.selftest("mutation-map/insert+remove+assign", sorted(fm.get("seen", {})) == ["insert", "remove"] and sorted(fm.get("n", {})) == ["assign"], True)
 
 
